@@ -286,7 +286,33 @@ func c19Programs(r *core.Rng, n int) []string {
 	b := func() string { return c19Bounds[r.Intn(len(c19Bounds))] }
 	var out []string
 	for len(out) < n {
-		switch r.Intn(18) {
+		switch r.Intn(19) {
+		case 18:
+			// one file reached through every way of naming it, in every order, inside one transaction: what a later access
+			// finds cached (with or without an open handler) depends on the earlier ones
+			csvForms := []string{"t", "`t.csv`", "FILE::('t.csv')", "INLINE::('t.csv')", "file:./t.csv", "CSV(',', `t.csv`)", "CSV(',', t)", "CSV(',', INLINE::('t.csv'))", "CSV(',', FILE::('t.csv'))", "CSV_INLINE(',', `t.csv`)", "CSV_INLINE(',', t)", "CSV(',', file:./t.csv)", "CSV(',', DATA::('id,k,v\n1,a,1'))", "CSV_INLINE(',', 'id,k,v\n1,a,1')", "LTSV(`t.csv`)", "FIXED('[1,3]', `t.csv`)"}
+			jsonForms := []string{"j", "`j.json`", "FILE::('j.json')", "INLINE::('j.json')", "JSON('', `j.json`)", "JSON('', j)", "JSON_INLINE('', `j.json`)", "JSON_INLINE('', j)", "JSON('', INLINE::('j.json'))", "JSON_TABLE('', `j.json`)", "JSON('', file:./j.json)", "JSONL('', `j.json`)", "JSON_INLINE('', '[{\"id\":1}]')"}
+			forms := csvForms
+			if r.P(35) {
+				forms = jsonForms
+			}
+			var sb strings.Builder
+			for k := r.Range(2, 4); k > 0; k-- {
+				f := forms[r.Intn(len(forms))]
+				switch r.Intn(7) {
+				case 0, 1, 2:
+					fmt.Fprintf(&sb, "SELECT COUNT(*) FROM %s x; ", f)
+				case 3:
+					fmt.Fprintf(&sb, "SELECT COUNT(*) FROM %s x FOR UPDATE; ", f)
+				case 4:
+					fmt.Fprintf(&sb, "UPDATE %s SET id = id; ", f)
+				case 5:
+					fmt.Fprintf(&sb, "DELETE FROM %s WHERE id = 1; ", f)
+				default:
+					fmt.Fprintf(&sb, "SELECT COUNT(*) FROM %s x JOIN %s y ON x.id = y.id; ", f, forms[r.Intn(len(forms))])
+				}
+			}
+			out = append(out, sb.String())
 		case 16:
 			// format strings: every verb with a flag, widths and precisions around the length of the operand
 			verbs := []string{"s", "s", "q", "i", "T", "d", "b", "o", "x", "X", "e", "E", "f", "%", "z", ""}
@@ -456,7 +482,7 @@ func c19ProgramFuzz(w *core.Worker, i int) {
 		fmt.Fprintf(&big, "%d,%s,%d\n", j, []string{"a", "a", "b", "c"}[(j-1)/100], j%7)
 		fmt.Fprintf(&big2, "%d,%s,%d\n", j+1000, []string{"x", "y", "a", "y"}[(j-1)/100], j%5)
 	}
-	core.WriteFiles(w.Work, map[string]string{"t.csv": "id,k,v\n1,a,3\n2,a,\n3,b,-1\n4,b,2.5\n5,,x\n", "e.csv": "id,k,v\n", "d.csv": "id,k,v\n11,p,1\n12,q,2\n", "one.csv": "id,k,v\n1,a,1\n",
+	core.WriteFiles(w.Work, map[string]string{"t.csv": "id,k,v\n1,a,3\n2,a,\n3,b,-1\n4,b,2.5\n5,,x\n", "e.csv": "id,k,v\n", "d.csv": "id,k,v\n11,p,1\n12,q,2\n", "one.csv": "id,k,v\n1,a,1\n", "j.json": "[{\"id\":1,\"k\":\"a\"},{\"id\":2,\"k\":\"b\"}]\n",
 		"big.csv": big.String(), "big2.csv": big2.String()})
 	s, err := core.NewSess(core.SessOpts{Dir: w.Work, Quiet: true, CPU: 4})
 	if err != nil {
